@@ -64,6 +64,10 @@ const PLACEMENTS = {
   'clash-in-try-then-finally': (R) => `function f(act) {\n  let r = '';\n  try { let ${R} = 'U1'; r = $.p(act, 1) + $.p(act, 2); $.u('read', ${R}); } catch (e) { r = $.p(act, 5) + $.p(act, 6); } finally { r = r + ($.p(act, 3) + $.p(act, 4)); }\n  return r;\n}`,
   'toplevel-class-method-param': (R) => `class K {\n  m(act, ${R}) { const v = $.p(act, 1) + $.p(act, 2); $.u('args', arguments[1]); return v; }\n}\nconst f = (act) => new K().m(act, 'U1');`,
   'template-with-literal-expression': (R) => `let ${R} = 'U1';\nfunction f(act) {\n  const v = $.p(act, 1) + $.p(act, 2);\n  $.u('tpl', \`\${1}\${${R}}\`);\n  return v;\n}`,
+  // a block that lives inside a parameter list: the body of a closure used as a default value
+  'closure-body-in-default-param': (R) => `let ${R} = 'U1';\nfunction f(act) {\n  const v = $.p(act, 1) + $.p(act, 2);\n  function inner(cb = () => { return ${R}; }) { return cb(); }\n  $.u('inner', inner());\n  return v;\n}`,
+  'closure-body-in-arrow-default-param': (R) => `let ${R} = 'U1';\nconst rd = () => ${R};\nfunction f(act) {\n  const inner = (cb = function () { ${R} = 'U2'; return 'w'; }) => cb();\n  const v = $.p(act, 1) + $.u('poke', inner()) + $.p(act, 2);\n  return v;\n}\nconst after = () => $.u('outer', rd());`,
+  'argument-of-rewritten-optional-call': (R) => `let ${R} = 'U1';\nfunction f(act) {\n  const s = $.p(act, 1);\n  const v = s?.concat(${R});\n  $.u('v', v);\n  return $.p(act, 2) + $.p(act, 3);\n}`,
   'else-if-unbraced': (R) => `let ${R} = 'U1';\nfunction f(act) {\n  const v = $.p(act, 1) + $.p(act, 2);\n  if ($.u('c', 0)) { v.length; } else if ($.u('d', 1)) ${R} = 'U3';\n  const w = $.p(act, 3) + $.p(act, 4);\n  return v + w;\n}\nconst rd = () => ${R};\nconst after = () => $.u('outer', rd());`
 }
 
